@@ -45,6 +45,85 @@ def carryInMicro (p : Path) (e : Ent) (r' : Rec) (a : Addr) (m : Method) : List 
 def recheckMicro (p : Path) (e : Ent) (r' : Rec) (a : Addr) : List Micro :=
   [mUnlinkWs p, mMaterialise p a r'.method, mSaveRec e r']
 
+/-! ## `move_to_cache` of a SYMBOLIC LINK: the data copy at system-call granularity
+
+  A regular file is `rename`d into the cache (`mMoveIn`, one call).  A symbolic link is not content (repair F31):
+  `move_to_cache` copies the bytes the link points to — an object of the cache for the symlink recheck method, a data
+  file outside of the repository for a link the user made — and that copy is MANY calls: `open(O_CREAT|O_TRUNC)`,
+  then one `copy_file_range` / `sendfile` / `write` per chunk (one chunk below 1 GiB where the kernel copies, one
+  per 8 KiB where `std` falls back to read + write).  The closure `copy_to_cache` writes them to the hidden
+  temporary name `.0.<ext>.xvc-tmp` NEXT TO the address, renames it onto the address and unlinks the link.  The
+  same closure is the cross-device branch (`bring` with `TMPDIR` on another file system). -/
+
+/-- the repository plus the hidden temporary file next to each cache address (`cache_dir.join(".0.<ext>.xvc-tmp")`):
+    its bytes so far, `none` when there is no such file -/
+structure FS where
+  st : St
+  tmp : Addr → Option Bytes
+
+abbrev FMicro := FS → FS
+
+def runF (x : FS) (l : List FMicro) : FS := l.foldl (fun x f => f x) x
+
+/-- a micro-step of the coarse model seen on the refined state -/
+def liftF (f : Micro) : FMicro := fun x => { x with st := f x.st }
+
+/-- `File::create(temp_cache_path)` inside `fs::copy`: `open(O_WRONLY|O_CREAT|O_TRUNC)` -/
+def fCreateTmp (a : Addr) : FMicro := fun x => { x with tmp := upd x.tmp a (some []) }
+
+/-- one `copy_file_range` / `sendfile` / `write` call of `fs::copy(path, temp_cache_path)`: one more chunk -/
+def fAppendTmp (a : Addr) (c : Bytes) : FMicro := fun x => { x with tmp := upd x.tmp a ((x.tmp a).map (· ++ c)) }
+
+/-- `fs::rename(temp_cache_path, cache_path)`: the object appears at its address with all the bytes of the temporary file -/
+def fRenameTmp (a : Addr) (stamp : Nat) : FMicro := fun x =>
+  match x.tmp a with
+  | some b => { st := x.st.setCache a (some ⟨b, false, stamp⟩), tmp := upd x.tmp a none }
+  | none => x
+
+/-- `fs::remove_file(path)`: the link is taken away, what it points to stays -/
+def fUnlinkLink (p : Path) : FMicro := fun x => { x with st := x.st.setWs p none }
+
+/-- `file_perm.set_readonly(true); fs::set_permissions(cache_path, …)` -/
+def fChmodObj (a : Addr) : FMicro := fun x =>
+  match x.st.cache a with
+  | some o => { x with st := x.st.setCache a (some { o with ro := true }) }
+  | none => x
+
+/-- `dir_perm.set_readonly(true); fs::set_permissions(cache_dir, …)` -/
+def fChmodDir (a : Addr) : FMicro := fun x => { x with st := { x.st with dirRo := upd x.st.dirRo a.d true } }
+
+/-- the calls of `fs::copy(path, temp_cache_path)` for a source that is delivered in the chunks `cs` -/
+def copyToTmp (a : Addr) (cs : List Bytes) : List FMicro := fCreateTmp a :: cs.map (fAppendTmp a)
+
+/-- what `move_to_cache` does after the copy: rename onto the address, unlink the link, object and directory read-only -/
+def afterCopy (p : Path) (a : Addr) (stamp : Nat) : List FMicro :=
+  [fRenameTmp a stamp, fUnlinkLink p, fChmodObj a, fChmodDir a]
+
+/-- `move_to_cache(path, cache_path)` for a `path` that is a symbolic link (address free): `copy_to_cache()` and the
+    two `set_permissions`.  `cs` is ANY division of the bytes the link points to into the chunks of the single calls. -/
+def moveLinkMicro (p : Path) (a : Addr) (cs : List Bytes) (stamp : Nat) : List FMicro :=
+  copyToTmp a cs ++ afterCopy p a stamp
+
+/-- `carry_in` of one path that is a symbolic link, no `--force`, address free: `moveLinkMicro`, then the two steps
+    of `carryMicro` that bring the path back (`if target_path.exists() { remove_file }`, `recheck_from_cache`) -/
+def carryLinkMicro (p : Path) (a : Addr) (m : Method) (cs : List Bytes) (stamp : Nat) : List FMicro :=
+  moveLinkMicro p a cs stamp ++ [liftF (mUnlinkWs p), liftF (mMaterialise p a m)]
+
+/-! the variant that copies IN PLACE (`fs::copy(path, cache_path)`): what `move_to_cache` must not do -/
+
+/-- `File::create(cache_path)`: an empty, writable file AT the address -/
+def fCreateObj (a : Addr) (stamp : Nat) : FMicro := fun x => { x with st := x.st.setCache a (some ⟨[], false, stamp⟩) }
+
+/-- one data-copy call with the address itself as destination -/
+def fAppendObj (a : Addr) (c : Bytes) : FMicro := fun x =>
+  match x.st.cache a with
+  | some o => { x with st := x.st.setCache a (some { o with b := o.b ++ c }) }
+  | none => x
+
+/-- `fs::copy(path, cache_path).and_then(|_| fs::remove_file(path))`, then the two `set_permissions` -/
+def moveLinkInPlaceMicro (p : Path) (a : Addr) (cs : List Bytes) (stamp : Nat) : List FMicro :=
+  (fCreateObj a stamp :: cs.map (fAppendObj a)) ++ [fUnlinkLink p, fChmodObj a, fChmodDir a]
+
 /-! ## atomic appearance of store files (after the K3a repair) -/
 
 /-- a directory of event files: name, hidden?, complete? -/
